@@ -28,6 +28,7 @@ type l3Case struct {
 	lastEDNS bool
 	lastDO   bool
 	queried  bool
+	newF     []string // the fields of the `l3 new` op (to rebuild the case for a retry)
 }
 
 var curL3 *l3Case
@@ -65,6 +66,7 @@ func l3New(f []string) vlib.Res {
 		ro.Mode = "off"
 		c.ref = newSysPipe(c.refTopo, ro)
 	}
+	c.newF = append([]string(nil), f...)
 	curL3 = c
 	return vlib.Res{Impl: fmt.Sprintf("servers=%d", c.topo.Servers), Oracle: "ok"}
 }
@@ -84,14 +86,18 @@ func judgeReply(entry string, sp *sysPipe, r qres, edns bool) string {
 	switch {
 	case r.Msg == nil:
 		return fmt.Sprintf("FAIL sig=%s/no-reply", entry)
-	case r.Elapsed > sp.P.Cfg.QueryTimeout.Duration+1500*time.Millisecond:
-		return fmt.Sprintf("FAIL sig=%s/not-within-query-timeout/%s elapsed=%s", strings.TrimSuffix(entry, "/off-twin"), lateReason(curL3), r.Elapsed.Round(time.Millisecond))
+	case late(sp, r):
+		return fmt.Sprintf("FAIL sig=%s/not-within-query-timeout/%s elapsed=%s (measured around Chain.Next inside the resolving process; second attempt)", strings.TrimSuffix(entry, "/off-twin"), lateReason(curL3), r.Elapsed.Round(time.Millisecond))
 	case r.Msg.Rcode != dns.RcodeSuccess && r.Msg.Rcode != dns.RcodeServerFailure && r.Msg.Rcode != dns.RcodeNameError:
 		return fmt.Sprintf("FAIL sig=%s/neither-answer-nor-servfail rcode=%d", entry, r.Msg.Rcode)
 	case !edns && r.Msg.IsEdns0() != nil:
 		return fmt.Sprintf("FAIL sig=%s/opt-in-reply-to-non-edns-client", entry)
 	}
 	return ""
+}
+
+func late(sp *sysPipe, r qres) bool {
+	return r.Msg != nil && r.Elapsed > sp.P.Cfg.QueryTimeout.Duration+1500*time.Millisecond
 }
 
 // lateReason is the structural part of the "did not come back in time" signature.
@@ -153,7 +159,7 @@ func replyBrief(r qres) string {
 	if has {
 		e = fmt.Sprint(code)
 	}
-	return fmt.Sprintf("rcode=%d an=%d ad=%s ede=%s pkts=%d", r.Msg.Rcode, len(r.Msg.Answer), vlib.B(r.Msg.AuthenticatedData), e, r.packets())
+	return fmt.Sprintf("rcode=%d an=%d ad=%s ede=%s pkts=%d ms=%d", r.Msg.Rcode, len(r.Msg.Answer), vlib.B(r.Msg.AuthenticatedData), e, r.packets(), r.Elapsed.Milliseconds())
 }
 
 // l3 query <edns> <do> <own>
@@ -164,8 +170,18 @@ func l3Query(f []string) vlib.Res {
 	}
 	edns, do, own := f[2] == "t", f[3] == "t", f[4] == "t"
 	r := c.main.query(c.topo.QName, c.topo.QType, edns, do, "10.1.2.3:4242", own)
-	c.queried, c.lastEDNS, c.lastDO = true, edns, do
 	tags := "nt," + c.fam + "," + c.mode
+	if late(c.main, r) {
+		// the box is shared: before latency is flagged the same query gets one more chance on a
+		// freshly built identical case, with nothing else running in this process
+		newF := c.newF
+		l3New(newF)
+		c = curL3
+		time.Sleep(300 * time.Millisecond)
+		r = c.main.query(c.topo.QName, c.topo.QType, edns, do, "10.1.2.3:4242", own)
+		tags += ",retried"
+	}
+	c.queried, c.lastEDNS, c.lastDO = true, edns, do
 	if v := judgeReply("l3/query", c.main, r, edns); v != "" {
 		return vlib.Res{Impl: replyBrief(r), Oracle: v, Tags: tags}
 	}
@@ -226,8 +242,9 @@ func l3Again(f []string) vlib.Res {
 	if v != "" {
 		return vlib.Res{Impl: replyBrief(r), Oracle: v, Tags: tags}
 	}
-	if prevOver && c.topo.Honest && r.Msg.Rcode == dns.RcodeServerFailure && r.packets() == 0 {
-		// no authority ever failed in this world, so the only failure that could have been cached is the budget's
+	if prevOver && c.topo.Honest && c.topo.Answerable && r.Msg.Rcode == dns.RcodeServerFailure && r.packets() == 0 {
+		// every name in this world resolves and no authority ever fails, so the only failure that
+		// could have been cached is the budget's
 		return vlib.Res{Impl: replyBrief(r), Oracle: "FAIL sig=l3/again/budget-failure-served-to-other-client", Tags: tags + ",afterover"}
 	}
 	if prevOver {
